@@ -59,6 +59,8 @@ const char* Conf::parse_token(const char* head)
 				if(c == '\\')
 				{
 					c = *++head;
+					if(!c)
+						break;
 					if(c == 'n')
 						k += "\n";
 					else if(c == '\t')
